@@ -41,6 +41,8 @@ def classify_local(ctx, v, optbits):
     if v["what"] == "decision":
         if optbits:
             add_violation(ctx, "C17", "local-part decision under build options %d" % optbits, case)
+            if v["mode"] != 6531:
+                add_violation(ctx, "C02", "ASCII local-part decision (build options %d)" % optbits, case)
         elif v["mode"] == 6531:
             add_violation(ctx, "C03", "6531 local-part decision", case)
         else:
@@ -266,13 +268,23 @@ def suite_recorded(ctx, n_mut, n_rand, n_long, optbits=0, variant="default"):
 
 def classify_email(ctx, v, optbits=0):
     w = v["what"]
-    tld = v["opts"] % 2 if w not in ("decision", "decision-tld") else (1 if w == "decision-tld" else 0)
+    tld = v["opts"] % 2 if w not in ("decision", "decision-tld", "decision-local") else (1 if w == "decision-tld" else 0)
     case = {"kind": "email", "mode": v["mode"], "tld_check": tld, "in": v["in"], "text": vlib.bytes_to_text(v["in"]),
             "expected": v["exp"], "got": v["got"], "model": v["model"], "what": w}
-    if optbits:
+    if optbits:     # the pins are those of the options (layer P takes them as a parameter): C17, and the property itself
         add_violation(ctx, "C17", "address outcome under build options %d: %s" % (optbits, w), case)
-        return
-    if w == "decision":
+        case = dict(case, build_options=optbits)
+    if w == "decision-local":
+        add_violation(ctx, "C01", "address accepted although its local part is invalid for the mode", case)
+        if not (optbits and v["mode"] == 6531):
+            add_violation(ctx, "C03" if v["mode"] == 6531 else "C02", "a local part the mode's grammar rejects is accepted in front of this domain", case)
+        if v["got"] == 8:
+            add_violation(ctx, "C09", "an address that is not even syntactically valid is classified 'special'", case)
+        elif v["got"] in range(1, 10):
+            add_violation(ctx, "C07", "an address that is not even syntactically valid is given a TLD class", case)
+        if v["got"] in range(1, 10):
+            add_violation(ctx, "C16", "result code is a TLD class although the local part is invalid", case)
+    elif w == "decision":
         add_violation(ctx, "C01", "address decision", case)
     elif w == "decision-tld":
         exp, got = v["exp"], v["got"]
@@ -348,6 +360,8 @@ def suite_tld(ctx, part, rowmod=8, rowrem=None, variants=("default",)):
 
 def c01(ctx):
     suite_email(ctx, 2, 0)
+    suite_email(ctx, 2, 0, optbits=1)      # the mode-6531 rules are a build-time choice; the decision rule is the same
+    suite_email(ctx, 2, 0, optbits=2)
     suite_ip(ctx, 2, 0)
     suite_email(ctx, 1, 5 if ctx.quick() else 6)
     suite_recorded(ctx, *((800, 800, 80) if ctx.quick() else (6000, 6000, 300)))
@@ -360,6 +374,8 @@ def c01(ctx):
 
 def c07(ctx):
     suite_tld(ctx, 1, 8 if ctx.quick() else 1, None if ctx.quick() else 0)
+    suite_idn(ctx, (2,), maxlabels=1)      # internationalised TLDs in U-label form, long U-label spellings, other dot code points
+    suite_email(ctx, 2, 0, optbits=4)      # underscore build: the last label is still the whole last label
     return finish(ctx, "model_checking",
                   "every row of data/punycode.csv (of the tree under test) in lower/UPPER/mixed case behind 1-4 labels, as single label, "
                   "in U-label form; near misses (every proper prefix and suffix, single substitutions, one-character extensions, listed "
@@ -369,6 +385,8 @@ def c07(ctx):
 
 def c09(ctx):
     suite_tld(ctx, 2)
+    suite_email(ctx, 2, 0, optbits=2)      # "no other domain is classified special" in the option builds too
+    suite_email(ctx, 2, 0, optbits=1)
     return finish(ctx, "model_checking",
                   "reserved names (test, example, invalid, localhost, onion, example.com/net/org) behind 0-3 labels with every length 1..63 "
                   "in each position, three case patterns, root dot, and every one-edit neighbour (substitution, deletion, insertion) of "
@@ -407,6 +425,8 @@ def suite_idn(ctx, parts=(1, 2, 3), maxlabels=2, variants=("default",), prop="C1
                         "expected": v["exp"], "got": v["got"], "converter_code_or_flags": v["model"]}
                 add_violation(ctx, "C10", v["what"], case)
                 add_violation(ctx, "C16", "result record differs between the two spellings of a domain: " + v["what"], case)
+                if part == 2:
+                    add_violation(ctx, "C07", "U-label and A-label spellings of a domain classify differently: " + v["what"], case)
             email_drift(ctx, res)
 
 
@@ -1226,6 +1246,7 @@ def c02(ctx):
         suite_local(ctx, 1, 5)
         suite_local(ctx, 2, 6)
     suite_sweep(ctx, 1, variants=("default", "uchar"))     # also where plain char is unsigned (ARM, PowerPC)
+    suite_email(ctx, 2, 0)                                 # the same rules in front of every kind of domain
     suite_recorded(ctx, *((600, 900, 120) if ctx.quick() else (5000, 8000, 400)))
     return finish(ctx, "model_checking",
                   "TLC enumerates every local part of <= MaxLen symbols over the alphabet (one state each), checks M |= P "
@@ -1243,6 +1264,7 @@ def c03(ctx):
         suite_local(ctx, 1, 5)
     suite_sweep(ctx, 1, variants=("default", "uchar"))
     suite_sweep(ctx, 2, full=not ctx.quick(), variants=("default", "uchar"))
+    suite_email(ctx, 2, 0)
     suite_recorded(ctx, *((600, 900, 120) if ctx.quick() else (5000, 8000, 400)))
     return finish(ctx, "model_checking",
                   "TLC enumerates local parts over ASCII structure characters and 2/3/4-byte and ill-formed UTF-8 chunks; "
